@@ -17,6 +17,7 @@ pub enum TyRepr {
     User(usize, Vec<TyRepr>),
     Param(String),
     SelfRef(String),
+    Lib(String, Vec<TyRepr>),
 }
 
 impl serde::Serialize for TyExpr {
@@ -45,6 +46,7 @@ impl From<TyExpr> for TyRepr {
             TyExpr::User(i, a) => TyRepr::User(i, a.into_iter().map(Into::into).collect()),
             TyExpr::Param(p) => TyRepr::Param(p),
             TyExpr::SelfRef(s) => TyRepr::SelfRef(s.to_string()),
+            TyExpr::Lib(n, a) => TyRepr::Lib(n.to_string(), a.into_iter().map(Into::into).collect()),
         }
     }
 }
@@ -62,6 +64,7 @@ impl From<TyRepr> for TyExpr {
             TyRepr::User(i, a) => TyExpr::User(i, a.into_iter().map(Into::into).collect()),
             TyRepr::Param(p) => TyExpr::Param(p),
             TyRepr::SelfRef(s) => TyExpr::SelfRef(leak(s)),
+            TyRepr::Lib(n, a) => TyExpr::Lib(leak(n), a.into_iter().map(Into::into).collect()),
         }
     }
 }
@@ -119,6 +122,8 @@ pub enum TyExpr {
     Param(String),
     /// self reference, written verbatim (`Option<Box<Self>>`, `Vec<Self>`, `Box<Self>`)
     SelfRef(&'static str),
+    /// a library type by path, with type arguments (`std::collections::HashSet<T>`)
+    Lib(&'static str, Vec<TyExpr>),
 }
 
 #[derive(Clone, Copy, Debug, PartialEq, Eq, Hash, serde::Serialize, serde::Deserialize)]
@@ -431,6 +436,10 @@ impl Module {
                             out.insert("map".into());
                             walk(k, out, depth + 1);
                             walk(v, out, depth + 1);
+                        }
+                        TyExpr::Lib(n, args) => {
+                            out.insert(format!("lib:{}", n.rsplit("::").next().unwrap_or(n)));
+                            args.iter().for_each(|a| walk(a, out, depth + 1));
                         }
                         _ => (),
                     }
